@@ -473,6 +473,7 @@ func checkC14(c *vlib.Ctx) {
 			c.Violation(results[j].sig2, results[j].detail)
 		}
 	}
+	crossCallerSequences(c, rigs[0])
 	var sigs []string
 	for s := range sigCount {
 		sigs = append(sigs, fmt.Sprintf("%s  [x%d]", s, sigCount[s]))
